@@ -84,10 +84,10 @@ SubGet ==
   /\ UNCHANGED <<abal, acp, sp, ac, tos, fee, who, amt, to, ret, outS, expect, ntx, nact, paid, sum0>>
 
 (* storage.SubBalance, second half: delete the record at zero, else store the new balance *)
-SubPut(removeOp(_)) ==
+SubPut(removeOp(_), insertOp(_, _)) ==
   /\ pc = "sub-put"
   /\ IF nb = 0 THEN KVRemove(who) /\ removeOp(who) /\ last' = "remove"
-               ELSE KVInsert(who, Str(nb)) /\ IInsert(who, Str(nb)) /\ last' = "insert"
+               ELSE KVInsert(who, Str(nb)) /\ insertOp(who, Str(nb)) /\ last' = "insert"
   /\ IF ires' = Denied
        THEN pc' = FailPc /\ agree' = (agree /\ (ret = "act" => ~expect.ok)) /\ UNCHANGED <<abal, paid, outS>>
        ELSE IF ret = "fee"
@@ -125,9 +125,9 @@ AddGet ==
   /\ UNCHANGED <<abal, acp, sp, ac, tos, fee, who, amt, to, ret, outS, expect, ntx, nact, paid, sum0>>
 
 (* storage.AddBalance, second half: store (creates the record when there is none); the action returns *)
-AddPut ==
+AddPut(insertOp(_, _)) ==
   /\ pc = "add-put"
-  /\ KVInsert(to, Str(nb)) /\ IInsert(to, Str(nb)) /\ last' = "insert"
+  /\ KVInsert(to, Str(nb)) /\ insertOp(to, Str(nb)) /\ last' = "insert"
   /\ IF ires' = Denied
        THEN pc' = "rollback" /\ agree' = (agree /\ ~expect.ok) /\ abal' = abal
        ELSE /\ pc' = "choose"
@@ -150,18 +150,39 @@ Commit ==
   /\ pc' = "idle"
   /\ UNCHANGED <<abal, acp, sp, ac, tos, fee, who, amt, to, ret, nb, outS, expect, ntx, nact, paid, sum0, agree>>
 
-Steps(removeOp(_)) ==
+Steps(removeOp(_), insertOp(_, _)) ==
   \/ \E s \in Keys, a \in Keys, T \in (SUBSET Keys) \ {{}}, f \in Fees : BeginTx(s, a, T, f)
-  \/ FeeCheck \/ SubGet \/ SubPut(removeOp) \/ Checkpoint
+  \/ FeeCheck \/ SubGet \/ SubPut(removeOp, insertOp) \/ Checkpoint
   \/ \E t \in tos, v \in 0..MAXU : StartAction(t, v, 0)
   \/ \E t \in tos : StartAction(t, 1, MaxMemo + 1)
-  \/ AddGet \/ AddPut \/ Rollback \/ Commit
+  \/ AddGet \/ AddPut(insertOp) \/ Rollback \/ Commit
 
-MNext         == Steps(IRemove)
-MNextOriginal == Steps(IRemoveAsOriginallyCoded)       \* the Remove of the pinned commit, before fix 4ad459b
+(* sensitivity variant of TStateView.Insert: the no-op detection (isUnchanged) looks at the block-level value only when
+   that value exists; after an earlier transaction of the block DELETED the key it compares with the parent value.
+   A credit that restores exactly the pre-block balance of an account drained earlier in the block is then dropped. *)
+IInsertIgnoringBlockDelete(k, v) ==
+  LET under == IF blk[k] # Unset /\ blk[k] # None THEN blk[k] ELSE base[k]
+      unch  == (under = v)
+      past  == Vis(k)
+  IN
+  IF ~Has(k, NeedWrite) THEN ires' = Denied /\ UNCHANGED <<pend, allocs, writes, ops, icps>>
+  ELSE IF past # None /\ past = v THEN ires' = "ok" /\ UNCHANGED <<pend, allocs, writes, ops, icps>>
+  ELSE IF past = None /\ ~Has(k, NeedAlloc) THEN ires' = Denied /\ UNCHANGED <<pend, allocs, writes, ops, icps>>
+  ELSE /\ ires' = "ok"
+       /\ ops' = Append(ops, Op(IF past = None THEN "create" ELSE "insert", k))
+       /\ IF unch THEN Forget(k)
+          ELSE /\ pend' = [pend EXCEPT ![k] = v]
+               /\ writes' = writes \cup {k}
+               /\ allocs' = IF past = None THEN allocs \cup {k} ELSE allocs
+       /\ UNCHANGED icps
+
+MNext            == Steps(IRemove, IInsert)
+MNextOriginal    == Steps(IRemoveAsOriginallyCoded, IInsert)   \* the Remove of the pinned commit, before fix 4ad459b
+MNextBlockDelete == Steps(IRemove, IInsertIgnoringBlockDelete) \* needs two transactions: drain, then exact refill
 
 MSpec         == MInit /\ [][MNext]_allvars
 MSpecOriginal == MInit /\ [][MNextOriginal]_allvars
+MSpecBlockDelete == MInit /\ [][MNextBlockDelete]_allvars
 
 (* ------------------------------ properties ------------------------------ *)
 Quiescent == pc \in {"idle", "checkpoint", "choose", "commit"}
